@@ -324,10 +324,19 @@ def c08(res, rng, tier):
     keys = [t for k in sorted(groups) for t in groups[k]][:4000] + STRINGISH + OTHERS + SPECIAL_FLOATS[3:7]
     keys += tuples_of(rng.fork("tup"), ALPHA10[:7] + ["N"], 200)
     r = rng.fork("hist")
-    nlong = 24 if q else 300
+    # the Dict model scans every entry with exact arithmetic (about 30 ms per operation at 300 entries):
+    # histories for model + implementation stay moderate; the big ones run on the implementation only,
+    # against a reference dictionary computed here with CPython's own == (below)
+    nlong = 24 if q else 100
     for i in range(nlong):
-        pool = [r.choice(keys) for _ in range(r.choice([12, 40, 300, 2000]))] + ALPHA10
-        lines.append(render_history(random_history(r, pool, r.choice([200, 600]) if q else r.choice([1500, 4000])), every_len=True))
+        pool = [r.choice(keys) for _ in range(r.choice([12, 40, 300, 2000] if q else [12, 40, 300, 300]))] + ALPHA10
+        lines.append(render_history(random_history(r, pool, r.choice([200, 600]) if q else r.choice([600, 1500])), every_len=True))
+    big_lines = []
+    if not q:
+        rb = rng.fork("big")
+        for i in range(24):
+            pool = [rb.choice(keys) for _ in range(rb.choice([300, 1000, 2000]))] + ALPHA10
+            big_lines.append(render_history(random_history(rb, pool, rb.choice([3000, 6000])), every_len=True))
     # multi-collision family: every query key against every ordered selection (<= 4) of the stored
     # keys that are equal to it ("Set and Del first remove EVERY entry whose key equals their argument")
     import itertools
@@ -359,6 +368,42 @@ def c08(res, rng, tier):
     nontriv = 0
     multi_seen = 0
     mism = 0
+    # big histories: implementation vs a reference dictionary under CPython's ==
+    for bl, bo in zip(big_lines, C.implrun(big_lines) if big_lines else []):
+        toks = bl.split()[1:]
+        ents = []                      # [(key object, value token)]
+        outs, j, amb = [], 0, set()
+        while j < len(toks):
+            op = toks[j]
+            if op == "L":
+                outs.append("L:%d" % len(ents)); j += 1; continue
+            if op == "I":
+                break
+            kp = PV.P(toks[j + 1:]); k = kp.value(); used = kp.i
+            eq = [n for n, (k2, _) in enumerate(ents) if PV.py_eq(k, k2)]
+            if op == "S":
+                vtok = toks[j + 1 + used]
+                ents = [e for n, e in enumerate(ents) if n not in eq] + [(k, vtok)]
+                outs.append("S:ok"); j += 2 + used
+            elif op == "D":
+                ents = [e for n, e in enumerate(ents) if n not in eq]
+                outs.append("D:ok"); j += 1 + used
+            elif op == "G":
+                if len(eq) > 1: amb.add(len(outs))
+                outs.append("G:" + (ents[eq[-1]][1] if eq else "none")); j += 1 + used
+            else:
+                break
+        got = bo.split(" | ")
+        if got and got[-1].startswith("iter("):
+            got = got[:-1]
+        bad = [p for p in range(min(len(got), len(outs))) if got[p] != outs[p] and p not in amb]
+        if len(got) != len(outs) or bad:
+            p0 = bad[0] if bad else min(len(got), len(outs))
+            res.violation("Dict disagrees with the reference dictionary (CPython ==) on a long history at output %d: %s vs %s"
+                          % (p0, (got[p0] if p0 < len(got) else "-")[:80], (outs[p0] if p0 < len(outs) else "-")[:80]),
+                          {"kind": "impl", "history": bl[:8000], "output_index": p0, "impl": " | ".join(got[max(0, p0 - 3):p0 + 2])[:400]})
+        else:
+            nontriv += 1
     for i, (io, mo) in enumerate(zip(impl, model)):
         if io.startswith(("PANIC", "CRASHED", "TIMEOUT")) or "PANIC(" in io:
             res.violation("Dict operation panicked / hung: %s" % io[:200],
